@@ -35,6 +35,9 @@ def universe():
     # points that have not been given a time yet (valid points: they are stamped on insert)
     pts.append(MPoint(None, "m0", {"k": "a"}, {"x": 2}))
     pts.append(MPoint(None, "m1", {}, {}))
+    # integers that floats cannot tell apart, and one beyond the float range (all valid field values)
+    for big in (2**53, 2**53 + 1, float(2**53), -(2**53) - 1, 10**400):
+        pts.append(MPoint(T0, "m0", {"k": "a"}, {"x": big}))
     return pts
 
 
@@ -89,6 +92,10 @@ def atom_vocabulary():
     for op in ops:
         for rhs in (0, 1.5):
             A.append(("cmp", "fields", ("x",), op, rhs))
+    for op in ops:
+        A.append(("cmp", "fields", ("x",), op, 2**53 + 1))  # exact integer comparison beyond 2**53
+    A.append(("cmp", "fields", ("x",), "<", 10**400))
+    A.append(("cmp", "fields", ("x",), ">=", -(2**53) - 1))
     A.append(("cmp", "fields", ("x",), "==", None))
     A.append(("cmp", "fields", ("x",), "!=", None))
     A.append(("cmp", "fields", ("x",), "<", -1))
@@ -124,7 +131,7 @@ def quick_atoms(A):
             seen.add(key)
             keep.append(a)
     # one more each for the None/missing sensitive ones
-    return keep[:52]
+    return keep[:52] + [a for a in A if a[0] == "cmp" and a[1] == "fields" and isinstance(a[4], int) and abs(a[4]) > 2**52][:4]
 
 
 CORE_ATOMS = [
